@@ -115,7 +115,7 @@ def run_case(case, acc, wd, second_run=True):
 
 
 def shard(ctx, acc):
-    total = 130 if ctx.quick else 2600
+    total = 130 if ctx.quick else 1600
     strat = gen_run.run_case(strategies=('hierarchical', 'hybrid'), formats=('default', ),
                              mutator_subsets=True, kinds=['monotone', 'hash', 'hash', 'mixed'], mixed_inputs=True)
     n = [0]
